@@ -102,7 +102,10 @@ def run_faultconc(idx, bound, n_random, sub_seed):
         code = rng.choice([errno.EIO, errno.ENOSPC, errno.EACCES])
         # one-off failures and failures that persist for the destination (a move is then not rescued by its copy fall-back)
         modes = (bool(idx % 2),) if bound == 0 else (False, True)
-        for ob, probs, wk, k in _it.chain.from_iterable(C.explore_with_faults(runner, rng, bound, n_random, code, persistent=m) for m in modes):
+        def tagged(m):
+            for item in C.explore_with_faults(runner, rng, bound, n_random, code, persistent=m):
+                yield item + (m,)
+        for ob, probs, wk, k, pers in _it.chain.from_iterable(tagged(m) for m in modes):
             res.evaluations += 1
             res.count("schedules")
             res.count("fault_under_contention_schedules")
@@ -116,7 +119,7 @@ def run_faultconc(idx, bound, n_random, sub_seed):
                        "faulted_call": op_shape(scn.calls[wk]), "fault_site": (ob.fault_fired or "").split(":")[0] + ":" +
                        "/".join((ob.fault_fired or "::").split(":")[2].split("/")[:2])}
                 wit = C.witness(runner, ob, symptom, detail)
-                wit.update(fault={"worker": wk, "site": k, "operation": ob.fault_fired})
+                wit.update(fault={"worker": wk, "site": k, "operation": ob.fault_fired, "errno": code, "persistent": pers})
                 if symptom in SYMPTOMS:
                     res.violation(sig, wit)
                 else:
@@ -152,4 +155,7 @@ def replay(witness):
     if witness.get("engine") == "fault":
         from . import C13
         return C13.replay(witness, symptoms=SYMPTOMS)
+    if witness.get("engine") == "conc" and witness.get("fault"):
+        from .. import concengine as C
+        return P.replay_fault_witness(witness, lambda runner, ob: [p for p in C.hygiene_problems(runner, ob) if p[0] in SYMPTOMS])
     return P.replay_witness(witness, SYMPTOMS)
